@@ -39,7 +39,7 @@ ReadPromised(p) == TRUE                                                        \
 WEntries == {"stream_frames", "flat_to_frames", "flat_to_file", "grouped_to_file", "plugin"}            \* plugin: Graph.serialize / GenericStatementSink.serialize
 Inputs   == {"container", "generator", "map-iterator", "iterator-class", "list", "plain-tuples-generator"}
 Options  == {"explicit", "guessed", "shared-object-second-use", "explicit-flow-object"}
-Outputs  == {"bytesio", "file", "buffered-writer", "frames-collected-then-written"}
+Outputs  == {"bytesio", "file", "buffered-writer", "frames-collected-then-written", "gzip-file", "socket-makefile"}
 
 WriteLattice == {p \in [integ : Integs, kind : Kinds, delimited : BOOLEAN, entry : WEntries, input : Inputs, options : Options, output : Outputs] :
                    /\ (p.entry \in {"grouped_to_file", "plugin"} => p.input = "container")                 \* these take graphs / datasets / sinks
